@@ -8,6 +8,7 @@ import (
 	"fmt"
 	"math"
 	"os"
+	"runtime/debug"
 	"sort"
 	"strings"
 	"time"
@@ -94,6 +95,7 @@ type EnvCfg struct {
 	Warmup           int    `json:"warmup"`  // blocks executed before the explored history (the last one carries Setup)
 	Setup            []TxSpec `json:"setup,omitempty"` // transactions of the last warm-up block; all must succeed
 	Proposer         string   `json:"proposer,omitempty"` // default block proposer (N1)
+	GenesisJSON      string   `json:"genesis_json,omitempty"` // start from this (exported) application state instead of the built-in genesis
 }
 
 func defaultEnv() EnvCfg {
@@ -444,7 +446,15 @@ type replica struct {
 func newReplica(env EnvCfg) *replica {
 	resetGlobals(env)
 	r := &replica{env: env, db: dbm.NewMemDB(), bsdb: dbm.NewMemDB(), txdb: dbm.NewMemDB(), logbuf: &bytes.Buffer{}, time: chainT0, valset: map[string]int64{}, valAddr: map[string]string{}}
-	r.genesis = buildGenesis(env)
+	if env.GenesisJSON != "" {
+		var gs app.GenesisState
+		if err := chainCodec().UnmarshalJSON([]byte(env.GenesisJSON), &gs); err != nil {
+			panic("cannot parse genesis_json: " + err.Error())
+		}
+		r.genesis = gs
+	} else {
+		r.genesis = buildGenesis(env)
+	}
 	r.open()
 	r.initChain()
 	return r
@@ -701,7 +711,7 @@ func (r *replica) dumpState() map[string]string {
 func runJob(job Job) (res JobResult) {
 	defer func() {
 		if p := recover(); p != nil {
-			res.Err = fmt.Sprintf("panic: %v", p)
+			res.Err = fmt.Sprintf("panic: %v\n%s", p, tail(string(debug.Stack()), 1800))
 		}
 	}()
 	r := newReplica(job.Env)
